@@ -579,3 +579,130 @@ Proof.
     rewrite (sumf_vsub n) by assumption. rewrite Ez, Sp. lra.
 Qed.
 
+
+(* ================= proximal_convex_conj_l1_l2(space, lam, g): projection of every point of x - sigma g onto the lam-ball ================= *)
+(* ---------------- one point: projection onto the lam-ball of R^d ---------------- *)
+Definition bprojl (lam : R) (xh : Rvec) : Rvec := map (fun a => a / (Rmax (sqrt (dot xh xh)) lam / lam)) xh.
+
+Lemma bprojl_vi d lam (xh zh : Rvec) : 0 < lam -> length xh = d -> length zh = d ->
+  dot (bprojl lam xh) (bprojl lam xh) <= lam * lam /\
+  (dot zh zh <= lam * lam -> dot (vsub zh (bprojl lam xh)) (vsub xh (bprojl lam xh)) <= 0).
+Proof.
+  intros Hl Hx Hz. unfold bprojl. set (N := sqrt (dot xh xh)).
+  assert (HN0 : 0 <= N) by apply sqrt_pos.
+  assert (HNN : N * N = dot xh xh) by (apply sqrt_sqrt, dot_self_nonneg).
+  destruct (Rle_dec N lam) as [H1|H1].
+  - rewrite Rmax_right by assumption. replace (lam / lam) with 1 by (field; lra).
+    assert (E : map (fun a => a / 1) xh = xh).
+    { rewrite <- (map_id xh) at 2. apply map_ext. intros a. field. }
+    rewrite E. split; [nra|]. intros _. rewrite (vsub_self d) by assumption. rewrite (dot_zero_r d) by auto with vlen. lra.
+  - apply Rnot_le_lt in H1. rewrite Rmax_left by lra. set (dl := N / lam).
+    assert (Hdl : 1 < dl) by (unfold dl; apply (Rmult_lt_reg_r lam); [assumption|]; unfold Rdiv; rewrite Rmult_assoc, Rinv_l by lra; lra).
+    set (ph := map (fun a => a / dl) xh).
+    assert (Lp : length ph = d) by (unfold ph; rewrite map_length; assumption).
+    assert (Hpp : dot ph ph = lam * lam) by (unfold ph; rewrite dot_self_map_div, <- HNN; unfold dl; field; lra).
+    split; [lra|]. intros Hzz. unfold ph at 2. rewrite (vsub_map_div d) by (auto; lra). fold ph.
+    rewrite dot_vscal_r, (dot_vsub_l d) by assumption. rewrite Hpp.
+    pose proof (dot_cs d zh ph Hz Lp) as C. rewrite Hpp in C. rewrite sqrt_square in C by lra.
+    assert (sqrt (dot zh zh) <= lam) by (rewrite <- (sqrt_square lam) by lra; apply sqrt_le_1_alt; assumption).
+    assert (0 <= sqrt (dot zh zh)) by apply sqrt_pos.
+    assert (dot zh ph - lam * lam <= 0) by nra. nra.
+Qed.
+
+(* ---------------- the field ---------------- *)
+Definition cdeltal (lam : R) (m : nat) (X : list Rvec) : Rvec := map (fun a => Rmax a lam / lam) (map sqrt (cn m X)).
+Definition feasiblel (lam : R) (m : nat) (M : list Rvec) : Prop := Forall (fun a => a <= lam * lam) (cn m M).
+
+Theorem groupball_vi_lam d lam : 0 < lam -> forall m (wb : Rvec) (X : list Rvec), allpos wb -> length wb = m -> rows_ok d m X ->
+  let P := crows (cdeltal lam m X) X in
+  feasiblel lam m P /\
+  forall Z, rows_ok d m Z -> feasiblel lam m Z -> mdot wb (msub Z P) (msub X P) <= 0.
+Proof.
+  intros Hl. induction m as [|m IHm]; intros wb X Pw Lw RX P.
+  - destruct wb; [|discriminate]. split.
+    + unfold feasiblel. rewrite cn_zero. constructor.
+    + intros Z _ _. rewrite mdot_nil_w. lra.
+  - destruct wb as [|w0 wb]; [discriminate|]. inversion Pw as [|? ? Hw0 Pw']; subst. cbn [length] in Lw.
+    assert (Ed : cdeltal lam (S m) X = Rmax (sqrt (dot (heads X) (heads X))) lam / lam :: cdeltal lam m (tails X)).
+    { unfold cdeltal. rewrite (cn_peel d) by assumption. reflexivity. }
+    assert (Ld : length (cdeltal lam (S m) X) = S m) by (unfold cdeltal; rewrite !map_length; apply (cn_len d); assumption).
+    assert (RP : rows_ok d (S m) P) by (apply crows_rows; assumption).
+    unfold P in *. rewrite Ed in *.
+    destruct (crows_peel d m (Rmax (sqrt (dot (heads X) (heads X))) lam / lam) (cdeltal lam m (tails X)) X RX) as [HP TP].
+    set (P' := crows (Rmax (sqrt (dot (heads X) (heads X))) lam / lam :: cdeltal lam m (tails X)) X) in *.
+    assert (HPb : heads P' = bprojl lam (heads X)) by (rewrite HP; reflexivity).
+    pose proof (rows_tails d m X RX) as RtX.
+    destruct (IHm wb (tails X) Pw' ltac:(lia) RtX) as [F' V']. rewrite <- TP in F', V'.
+    destruct (bprojl_vi d lam (heads X) (heads X) Hl (heads_len d _ X RX) (heads_len d _ X RX)) as [B1 _].
+    split.
+    + unfold feasiblel. rewrite (cn_peel d m P') by assumption. constructor; [rewrite HPb; exact B1|exact F'].
+    + intros Z RZ FZ. unfold feasiblel in FZ. rewrite (cn_peel d m Z) in FZ by assumption.
+      pose proof (Forall_inv FZ) as FZ0. pose proof (Forall_inv_tail FZ) as FZt. cbn beta in FZ0.
+      rewrite (mdot_peel d m) by (apply msub_rows; assumption).
+      destruct (msub_heads d m Z P' RZ RP) as [E1 E2]. destruct (msub_heads d m X P' RX RP) as [E3 E4].
+      rewrite E1, E2, E3, E4, HPb.
+      destruct (bprojl_vi d lam (heads X) (heads Z) Hl (heads_len d _ X RX) (heads_len d _ Z RZ)) as [_ B2].
+      specialize (B2 FZ0). specialize (V' (tails Z) (rows_tails d m Z RZ) FZt). nra.
+Qed.
+
+(* ---------------- proximal_convex_conj_l1_l2(space, lam, g) ---------------- *)
+Definition F_ccl1l2 (m d : nat) (lam : R) (g w z : Rvec) : option R :=
+  if forallb (fun a => Rleb a (lam * lam)) (@pw_normsq R _ m d z) then Some (wdot w z g) else None.
+
+Lemma forallb_le_lam lam (l : Rvec) : forallb (fun a => Rleb a (lam * lam)) l = true <-> Forall (fun a => a <= lam * lam) l.
+Proof.
+  induction l as [|a l IH]; cbn [forallb]; split; intros H; try constructor; try reflexivity.
+  - destruct (Rleb_spec a (lam * lam)); [assumption|discriminate].
+  - apply IH. destruct (Rleb a (lam * lam)); [assumption|discriminate].
+  - inversion H; subst. destruct (Rleb_spec a (lam * lam)); [apply IH; assumption|contradiction].
+Qed.
+Lemma wdot_vadd_rr n (w z x y : Rvec) : length w = n -> length z = n -> length x = n -> length y = n ->
+  wdot w z (vadd x y) = wdot w z x + wdot w z y.
+Proof. intros. rewrite wdot_sym, (wdot_vadd_l n) by assumption. rewrite (wdot_sym w x), (wdot_sym w y). reflexivity. Qed.
+Lemma x_minus_p n : forall s (x g p : Rvec), length x = n -> length g = n -> length p = n ->
+  vsub x p = vadd (vsub (vlin 1 x (- s) g) p) (vscal s g).
+Proof. vind n. unfv; cbn [map vmap2]; f_equal; [numR; ring | apply IHn; lia]. Qed.
+
+Theorem ccl1l2_factory_prox m d lam (g wb x : Rvec) s : 0 < lam -> 0 < s -> (1 <= d)%nat -> allpos wb -> length wb = m ->
+  length g = (d * m)%nat -> length x = (d * m)%nat ->
+  let w := concat (repeat wb d) in
+  is_proxs (d * m) (F_ccl1l2 m d lam g w) (metric w (repeat s (d * m))) x
+           (@prox_cc_l1_l2 R _ _ m d lam (Some g) s x).
+Proof.
+  intros Hl Hs Hd Pw Lw Hg Hx w.
+  assert (Lww : length w = (d * m)%nat).
+  { unfold w. clear -Lw. induction d; cbn [repeat concat]; [reflexivity|]. rewrite app_length, IHd. lia. }
+  set (diff := vlin 1 x (- s) g). assert (Ldf : length diff = (d * m)%nat) by (unfold diff; auto with vlen).
+  destruct (chunks_rows m d diff Ldf) as [RD CD]. set (D := chunks m d diff) in *.
+  assert (Ldl : length (cdeltal lam m D) = m) by (unfold cdeltal; rewrite !map_length; apply (cn_len d); assumption).
+  assert (RP : rows_ok d m (crows (cdeltal lam m D) D)) by (apply crows_rows; assumption).
+  assert (Ep : @prox_cc_l1_l2 R _ _ m d lam (Some g) s x = concat (crows (cdeltal lam m D) D)).
+  { unfold prox_cc_l1_l2, pw_norm, pw_normsq. numS. fold diff. fold D. fold (cn m D). unfold crows. f_equal.
+    apply map_ext_in. intros c _. f_equal. unfold cdeltal. rewrite !map_map. apply map_ext. intros a.
+    rewrite nmax_R. reflexivity. }
+  destruct (groupball_vi_lam d lam Hl m wb D Pw Lw RD) as [FP VP].
+  set (P := crows (cdeltal lam m D) D) in *. set (p := concat P).
+  assert (Lp : length p = (d * m)%nat) by (apply (concat_len d m); assumption).
+  assert (Hval : forall M, rows_ok d m M ->
+            F_ccl1l2 m d lam g w (concat M) = if forallb (fun a => Rleb a (lam * lam)) (cn m M) then Some (wdot w (concat M) g) else None).
+  { intros M RM. unfold F_ccl1l2, pw_normsq. rewrite (chunks_concat m d M RM). reflexivity. }
+  rewrite Ep. fold p. split; [assumption|]. exists (wdot w p g). split.
+  - unfold p. rewrite Hval by assumption. apply forallb_le_lam in FP. rewrite FP. reflexivity.
+  - intros z Hz. destruct (chunks_rows m d z Hz) as [RZ CZ]. set (Z := chunks m d z) in *.
+    rewrite <- CZ at 2. rewrite Hval by assumption.
+    destruct (forallb (fun a => Rleb a (lam * lam)) (cn m Z)) eqn:EZ; cbn [ele]; [|exact I].
+    apply forallb_le_lam in EZ. rewrite CZ.
+    rewrite (metric_scalar_dot (d * m)) by (auto with vlen; lra).
+    rewrite (x_minus_p (d * m) s x g p) by assumption. fold diff.
+    rewrite (wdot_vadd_rr (d * m)), (wdot_vscal_r' (d * m)) by auto with vlen.
+    rewrite (wdot_vsub_l (d * m) w z p g) by assumption.
+    (* the projection part *)
+    assert (Hproj : wdot w (vsub z p) (vsub diff p) <= 0).
+    { rewrite <- CZ, <- CD. unfold p. rewrite !(vsub_concat d m) by assumption. unfold w.
+      rewrite (wdot_concat d m wb Lw) by (apply msub_rows; assumption). apply VP; assumption. }
+    assert (Hi : 0 < / s) by (apply Rinv_0_lt_compat; assumption).
+    unfold Rdiv. replace ((wdot w (vsub z p) (vsub diff p) + s * (wdot w z g - wdot w p g)) * / s)
+      with (wdot w (vsub z p) (vsub diff p) * / s + (wdot w z g - wdot w p g)) by (field; lra).
+    nra.
+Qed.
+
